@@ -555,6 +555,34 @@ func runC16D(c C16DCase) (fails []vstat.Failure) {
 			fails = append(fails, vstat.Failf(key("connect-refused:response"), "reply (%d) to a refused CONNECT: %s; %s", m.Status, d, desc))
 		}
 	}
+	// ---- 4. MITM behind an upstream proxy that refuses the CONNECT the proxy's own transport sends for an https request:
+	// the refusal is relayed as the answer to the client's (non-CONNECT) request - response rules apply to it
+	if c.MITM && c.Upstream {
+		vid := fmt.Sprintf("%d-mdeny", id)
+		target := "deny.c16.test:443"
+		tc, err := Dial(proxyAddr)
+		if err != nil {
+			return append(fails, vstat.Failf("C16:harness", "dial: %v", err))
+		}
+		defer tc.Close()
+		tc.SetDeadline(time.Now().Add(10 * time.Second))
+		br := bufio.NewReader(tc)
+		fmt.Fprintf(tc, "CONNECT %s HTTP/1.1\r\nHost: %s\r\n\r\n", target, target)
+		if m, err := ReadResponse(br, "CONNECT"); err != nil || m.Status != 200 {
+			return append(fails, vstat.Failf(key("mitm-refused:functional"), "CONNECT to the intercepting proxy: %v, %+v; %s", err, m, desc))
+		}
+		t := tls.Client(&bufferedConn{Conn: tc, r: br}, &tls.Config{RootCAs: e.ca.Pool, ServerName: "deny.c16.test"})
+		if err := t.Handshake(); err != nil {
+			return append(fails, vstat.Failf(key("mitm-refused:functional"), "handshake inside the tunnel: %v; %s", err, desc))
+		}
+		fmt.Fprintf(t, "GET /c16 HTTP/1.1\r\nHost: %s\r\nX-Vid: %s\r\n\r\n", target, vid)
+		m, err := ReadResponse(bufio.NewReader(t), "GET")
+		if err != nil || m.Status != 403 {
+			fails = append(fails, vstat.Failf(key("mitm-refused:functional"), "request whose upstream CONNECT is refused: %v, %+v (want the upstream's 403); %s", err, m, desc))
+		} else if d := compareMarkers(c.Response, markerFields(m.Fields), dApply(c.Response, nil)); d != "" {
+			fails = append(fails, vstat.Failf(key("mitm-refused:response"), "the upstream's refusal relayed as the answer to a GET: %s; %s", d, desc))
+		}
+	}
 	return fails
 }
 
